@@ -251,6 +251,109 @@ def rule_g(R, ctx):
     c03.rule_b(R, ctx, "C20.g.squash")
 
 
+def rule_i(R, ctx):
+    Y = ctx.yrs
+    fn = Y.fn("yrs::types::weak::LinkSource::to_string")
+    v = FnView(fn)
+    R.rule("C20.i", "R-GUARD the end of a text quotation is tested on every item of the walk: in LinkSource::to_string both "
+                    "end-of-range tests (`item.id == end` for an excluded end, `item.last_id() == end` for an included one) sit in "
+                    "the loop and neither is control-dependent on the item's deletion flag or content kind — the boundary element "
+                    "may be deleted or be a non-string element, and a walk that skips the test for it runs on to the end of the text")
+    tests = []
+    for cs in fn.calls():
+        if not re.search(r"PartialEq(<.*>)?>?::eq$", cs.name) or len(cs.args) != 2:
+            continue
+        a0, a1 = simp_deep(v.arg(cs, 0, 12)), simp_deep(v.arg(cs, 1, 12))
+        if not (term_has_call(a1, "yrs::sticky_index::StickyIndex::id") and term_has_field(a1, "quote_end") or
+                term_has_call(a0, "yrs::sticky_index::StickyIndex::id") and term_has_field(a0, "quote_end")):
+            continue
+        tests.append((cs, a0 if term_has_call(a1, "yrs::sticky_index::StickyIndex::id") else a1))
+    R.floor("C20.i", "end-of-range tests in LinkSource::to_string", len(tests), 2)
+    kinds = set()
+    for (cs, other), site in zip(tests, [s_ for _, s_ in ordinal_sites([t[0] for t in tests])]):
+        kind = "last_id" if term_has_call(other, "yrs::block::Item::last_id") else ("id" if term_has_field(other, "Item.id") else "?")
+        kinds.add(kind)
+        bad = []
+        for l in v.guards(cs.bb):
+            t = simp(l.term)
+            if term_has_call(t, "yrs::block::Item::is_deleted") or term_has_call(t, "re:ItemFlags::is_deleted$"):
+                bad.append("deletion flag: " + l.desc[:80])
+            elif not isinstance(l.polarity, bool) and isinstance(l.polarity, str) and l.polarity in ITEM_CONTENT_KINDS:
+                bad.append("content kind: " + l.desc[:80])
+            elif isinstance(l.polarity, tuple) and any(x in ITEM_CONTENT_KINDS for x in (l.polarity[1] if len(l.polarity) > 1 else [])):
+                bad.append("content kind: " + l.desc[:80])
+        inloop = fn.cfg().in_loop(cs.bb)
+        R.ob("C20.i", fn, "end-test:" + kind, inloop and not bad,
+             "the %s == end test is evaluated for every item of the walk" % kind if inloop and not bad else
+             "the %s == end test is skipped for some items (in loop=%s; decided by %s)" % (kind, inloop, bad[:2]), cs.loc())
+    R.ob("C20.i", fn, "both-ends", kinds >= {"id", "last_id"}, "tests for the excluded (id) and the included (last_id) end: %s" % sorted(kinds))
+
+
+def rule_j(R, ctx):
+    Y = ctx.yrs
+    fn = Y.fn("yrs::types::text::DiffAssembler::process")
+    v = FnView(fn)
+    R.rule("C20.j", "R-SIB every kind of visible element honours both boundaries of a quoted XmlText range: in DiffAssembler::process "
+                    "(behind LinkSource::to_xml_string / XmlTextRef::get_string_fragment) each content arm that emits into the result "
+                    "— strings (push_str into the buffer) and embedded values / nested types (push of a Diff) — (1) emits only under "
+                    "a comparison of the `range has started` state that the start test (`item.contains(start)`) maintains, and (2) "
+                    "contains an end test (`item.contains(end)`) of its own; an arm without them emits elements that lie before the "
+                    "start, or walks past an end that falls on its kind of element")
+    cfg = fn.cfg()
+    params = fn.sig.get("params", [])
+    if "start" not in params or "end" not in params:
+        raise AnchorLost("DiffAssembler::process no longer has start/end parameters: %s" % params)
+
+    def mentions(t, pname):
+        return any(x[0] == "param" and len(x) > 2 and x[2] == pname for x in walk(t))
+    # the `started` state: locals stored under a `contains(item, start)` guard
+    started = set()
+    for i, j, st in fn.stmts():
+        d = st["dst"]
+        if isinstance(d, int) or (isinstance(d, dict) and not d.get("p")):
+            l_ = d if isinstance(d, int) else d.get("l")
+            if any(simp(g.term)[0] == "call" and simp(g.term)[1].endswith("Item::contains") and mentions(simp_deep(g.term), "start") and g.polarity is True for g in v.guards(i)):
+                if str(fn.local_ty(l_)) in ("i32", "i64", "isize", "bool", "u32") and fn.local_name(l_):
+                    started.add(l_)
+    R.floor("C20.j", "locals that record `the range has started`", len(started), 1)
+
+    def reads_started(term_bb_guard):
+        sw = fn.blocks[term_bb_guard.bb]["t"].get("switch")
+        sd = mir_def(fn, sw) if sw else None
+        while sd and sd[0] == "stmt" and sd[1].get("un") == "Not":
+            sd = mir_def(fn, sd[1].get("a"))
+        if not (sd and sd[0] == "stmt" and "bin" in sd[1]):
+            return False
+        for o in (sd[1]["a"], sd[1]["b"]):
+            r = mir_root(fn, o)
+            if r[0] == "local" and r[1] in started:
+                return True
+        return False
+    emits = [c for c in fn.calls() if (re.search(r"String::push_str$", c.name) or re.search(r"Vec(<.*>)?::push$", F.strip_generics(c.name))) and cfg.in_loop(c.bb)]
+    R.floor("C20.j", "emitting calls inside the walk", len(emits), 3)
+    arms = {}
+    for cs, site in ordinal_sites(emits):
+        ks, used = kinds_reaching(Y, fn, cs.bb)
+        if not used or len(ks) > 3:
+            continue
+        arm = "|".join(sorted(ks))
+        ok = any(reads_started(g) for g in v.guards(cs.bb))
+        R.ob("C20.j", fn, "start:%s:%s" % (arm, site), ok,
+             "%s: emitted only under a test of the started state" % arm if ok else
+             "%s: emitted whatever the started state is — elements of this kind that lie before the start of the quoted range are "
+             "part of the dereferenced string" % arm, cs.loc())
+        arms.setdefault(arm, []).append(cs)
+    R.floor("C20.j", "emitting content arms", len(arms), 2)
+    ends = [c for c in fn.calls() if c.name.endswith("Item::contains") and len(c.args) == 2 and mentions(simp_deep(v.arg(c, 1, 12)), "end")]
+    for arm, css in sorted(arms.items()):
+        kinds = set(arm.split("|"))
+        has = [c for c in ends if kinds_reaching(Y, fn, c.bb)[0] == kinds]
+        R.ob("C20.j", fn, "end:" + arm, bool(has),
+             "%s: the arm tests item.contains(end) itself (%d site(s))" % (arm, len(has)) if has else
+             "%s: no end test in this arm — when the included end of the range is an element of this kind the walk continues to the "
+             "end of the text" % arm, css[0].loc())
+
+
 def check(ctx, R):
     from . import wire_rules
     R.run("C20.a", rule_a, ctx)
@@ -260,6 +363,8 @@ def check(ctx, R):
     R.run("C20.e", rule_e, ctx)
     R.run("C20.f", rule_f, ctx)
     R.run("C20.g", rule_g, ctx)
+    R.run("C20.i", rule_i, ctx)
+    R.run("C20.j", rule_j, ctx)
     from . import preds
     R.run("C20.p", lambda R, c: preds.rule(R, c, "C20.p", ["adjacent_left", "adjacent_right"]), ctx)
     from . import c02 as _c02
